@@ -1,6 +1,6 @@
 RULES = [
-    ("C05-F1", "reset-priority latch (write(v, reset=r, set=s)): when reset becomes active while set is still active "
-               "(or both are active at power-on for inlined comparisons) the cell stays on; the declared priority is "
-               "not honoured, in the inlined and in the non-inlined implementation",
+    ("C05-F1", "non-inlined reset-priority latch (write(v, reset=r, set=s) with signals or comparisons on different inputs): "
+               "the single 'S > R' decider adds its own feedback to S, so when reset becomes active while set is still "
+               "active the cell stays on (S + feedback = 2 > R = 1); the declared priority is not honoured",
      lambda c, d: c["order"] == "rs"),
 ]
